@@ -24,3 +24,4 @@ def run(ck):
     status.r19_14_direct_fill_passes_the_image_bounds(ck, P, 'C03-R15')
     geometry.r_coordinate_split_floors(ck, P)
     traps.r21_raw_rasterisers_consult_the_clip(ck, P)
+    status.r_rectangles_taken_after_the_last_intersection(ck, P)
